@@ -30,10 +30,11 @@ tier = sys.argv[1] if len(sys.argv) > 1 else 'quick'
 seed = int(sys.argv[2]) if len(sys.argv) > 2 else 0
 QUICK = tier != 'thorough'
 NPROC = 16
-CALL_LIMIT = 10.0 if QUICK else 30.0
+CALL_LIMIT = 2.0 if QUICK else 10.0         # CPU seconds for one action / one open (normal: < 0.5)
+WALL_FACTOR = 8                             # ... and CALL_LIMIT * WALL_FACTOR seconds of wall clock (blocking hang)
 T_START = time.time()
-DEADLINE = T_START + (42.0 if QUICK else 700.0)   # no new sequence is started after this (left-overs are counted)
-HARD_END = T_START + (56.0 if QUICK else 850.0)   # the parent kills whatever still runs
+DEADLINE = T_START + (36.0 if QUICK else 700.0)   # no new sequence is started after this (left-overs are counted)
+HARD_END = T_START + (57.0 if QUICK else 850.0)   # the parent kills whatever still runs
 MAXLEN = 3 if QUICK else 4
 LISTDIR = os.path.join(REPO, 'tests', 'listing')
 TSPEC = {'element': 'e', 'connection': 'c', 'generation': 'g', 'primary': 'p', 'element1': 'e1', 'element2': 'e2'}
@@ -55,11 +56,15 @@ def _on_alarm(signum, frame):
 
 
 def limited(fn, seconds):
+    """Run fn() under interval timers (CPU time of this process, and wall clock); CallTimeout on expiry."""
     signal.signal(signal.SIGALRM, _on_alarm)
-    signal.setitimer(signal.ITIMER_REAL, seconds)
+    signal.signal(signal.SIGPROF, _on_alarm)
+    signal.setitimer(signal.ITIMER_PROF, seconds)
+    signal.setitimer(signal.ITIMER_REAL, seconds * WALL_FACTOR)
     try:
         return fn()
     finally:
+        signal.setitimer(signal.ITIMER_PROF, 0)
         signal.setitimer(signal.ITIMER_REAL, 0)
 
 
@@ -88,6 +93,17 @@ def block_starts(path):
                 while j > 0 and not lines[j - 1].strip(): j -= 1
                 starts.append(j)
     return [offs[i] for i in starts[1:]]
+
+
+def file_tables(path):
+    """Names of the tables of a listing (read once in the parent, under the time limit)."""
+    try:
+        l = limited(lambda: t2listing(path), 6 * CALL_LIMIT)
+        names = list(l._tablenames)
+        l.close()
+        return names
+    except BaseException:
+        return []
 
 
 def make_truncated(rel, tmp, ks):
@@ -137,9 +153,17 @@ def diff_snapshot(want, got):
     return None
 
 
-def fresh_snapshots(path):
+def opened(path, skip=()):
+    return t2listing(path, skip_tables=list(skip)) if skip else t2listing(path)
+
+
+class FreshError(Exception):
+    pass
+
+
+def fresh_snapshots(path, skip=()):
     """One fresh reader per index i, positioned with index = i and then discarded."""
-    l0 = t2listing(path)
+    l0 = opened(path, skip)
     n = l0.num_fulltimes
     info = {'n': n, 'tables': list(l0._tablenames), 'sim': l0.simulator,
             'rows': {t: list(l0._table[t].row_name) for t in l0._tablenames},
@@ -147,8 +171,13 @@ def fresh_snapshots(path):
     l0.close()
     snaps = []
     for i in range(n):
-        l = t2listing(path)
-        l.index = i
+        l = opened(path, skip)
+        try:
+            l.index = i
+        except Exception as e:
+            tb = traceback.extract_tb(sys.exc_info()[2])[-1]
+            raise FreshError('index=%d' % i, 'a newly opened reader raises %s: %s (%s:%d) on index = %d' %
+                             (type(e).__name__, e, os.path.basename(tb.filename), tb.lineno, i))
         snaps.append(snapshot(l))
         l.close()
     return info, snaps
@@ -205,8 +234,8 @@ def apply(lst, act):
 
 
 class Nav(object):
-    def __init__(self, path, rel, snaps, info, progress):
-        self.path, self.rel, self.snaps, self.info, self.progress = path, rel, snaps, info, progress
+    def __init__(self, path, rel, snaps, info, progress, skip=()):
+        self.path, self.rel, self.snaps, self.info, self.progress, self.skip = path, rel, snaps, info, progress, skip
         self.n = info['n']
         self.T = [s[1] for s in snaps]
         self.S = [s[2] for s in snaps]
@@ -218,9 +247,9 @@ class Nav(object):
             if count: self.counts[c] += 1
         self.progress(', '.join(show(a) for a in seq))
         try:
-            lst = limited(lambda: t2listing(self.path), CALL_LIMIT)
+            lst = limited(lambda: opened(self.path, self.skip), CALL_LIMIT)
         except CallTimeout:
-            return 0, 'timeout', 'opening the listing still running after %g s' % CALL_LIMIT
+            return 0, 'timeout', 'opening the listing still running after %g s of CPU time' % CALL_LIMIT
         try:
             cur = 0
             bump('state')
@@ -234,7 +263,7 @@ class Nav(object):
                     got = limited(lambda: apply(lst, act), CALL_LIMIT)
                     raised = None
                 except CallTimeout:
-                    return p, 'timeout', '%s still running after %g s' % (show(act), CALL_LIMIT)
+                    return p, 'timeout', '%s still running after %g s of CPU time' % (show(act), CALL_LIMIT)
                 except Exception as e:
                     raised = e
                     tb = traceback.extract_tb(sys.exc_info()[2])[-1]
@@ -292,7 +321,7 @@ def action_pool(info, T, S, rnd):
         rows, cols = info['rows'][t], info['cols'][t]
         r = rows[min(len(rows) - 1, int(frac * len(rows)))]
         return [TSPEC[t], list(r) if isinstance(r, tuple) else r, cols[ci % len(cols)]]
-    hist = [[item(tabs[0], 0.5, -1)], [item(t, 0.9, 1) for t in reversed(tabs)], [item(tabs[-1], 0.0, 0), item(tabs[0], 0.99, 2)]]
+    hist = [[item(tabs[0], 0.5, -1)], [item(t, 0.9, 1) for t in reversed(tabs)], [item(tabs[-1], 0.0, 0), item(tabs[0], 0.99, 2)]] if tabs else []
     if len(tabs) > 2:
         hist.append([item(tabs[-1], 0.3, 0), item(tabs[1], 0.6, 1)])     # skips the tables in between
     pool = {'first': [('first',)], 'last': [('last',)], 'next': [('next',)], 'prev': [('prev',)],
@@ -303,43 +332,60 @@ def action_pool(info, T, S, rnd):
     return pool
 
 
-def sequences(pool, n, rnd, reduced, size):
-    """Sequences of one file: all class sequences up to MAXLEN (variants rotated), then random long ones."""
-    classes = ['first', 'last', 'next', 'prev', 'index+', 'index-', 'time', 'step', 'history']
-    L = MAXLEN if not reduced else MAXLEN - 1
+MERGED = [('first', 'last'), ('next',), ('prev',), ('index+', 'index-'), ('time', 'step'), ('history',)]
+
+
+def sequences(pool, n, rnd, mode, size):
+    """Sequences of one reader.  mode: 'full' (shipped file, several result sets), 'trunc' (truncated copy),
+    'skip' (opened with skip_tables), 'single' (shipped file with one result set - outside the quantifier).
+    Per mode and tier: every concrete action alone (from the first and from the last result set), every pair
+    of action classes, every class sequence of the maximal length (the concrete variants of a class rotate;
+    large files get a seeded sample), the out-of-range index in context, random sequences of 30 actions."""
+    classes = [c for c in ['first', 'last', 'next', 'prev', 'index+', 'index-', 'time', 'step', 'history'] if pool[c]]
+    merged = [tuple(c for c in m if pool[c]) for m in MERGED]
+    merged = [m for m in merged if m]
     rot = dict((c, 0) for c in pool)
     def pick(c):
+        if isinstance(c, tuple):
+            rot[c] = rot.get(c, 0) + 1
+            c = c[rot[c] % len(c)]
         v = pool[c][rot[c] % len(pool[c])]
         rot[c] += 1
         return v
+    # (all variants alone?, pairs?, (alphabet, length) of the long product or None, cap on it, random sequences)
+    plan = {('full', True): (True, True, (merged, 3), 216, 8), ('full', False): (True, True, (classes, 4), 1500000000 // max(size, 1), 120),
+            ('trunc', True): (False, True, None, 0, 2), ('trunc', False): (True, True, (classes, 3), 400000000 // max(size, 1), 30),
+            ('skip', True): (False, False, None, 0, 2), ('skip', False): (True, True, (merged, 3), 216, 20),
+            ('single', True): (False, False, None, 0, 1), ('single', False): (True, True, None, 0, 10)}[(mode, QUICK)]
+    allv, pairs, longp, cap, nrandom = plan
     seqs = []
-    # every single concrete action, from the start and from the end
     for c in sorted(pool):
-        for a in pool[c]:
+        for a in (pool[c] if allv else pool[c][:1]):
             seqs.append([a]); seqs.append([('last',), a])
-    for l in range(2, L + 1):
-        if n == 1 and l > 2: break                        # one result set: every action leads to index 0
-        if l < L and l > 2: continue                      # shorter ones are prefixes of the longer ones
-        prod = list(itertools.product(classes, repeat=l))
-        cap = max(81, (40000000 if QUICK else 1500000000) // max(size, 1))     # large files: a seeded sample
+    if pairs:
+        for cs in itertools.product(classes, repeat=2):
+            seqs.append([pick(c) for c in cs])
+    if longp:
+        prod = list(itertools.product(longp[0], repeat=longp[1]))
+        cap = max(81, cap)
         if len(prod) > cap:
             prod = [prod[i] for i in sorted(rnd.sample(range(len(prod)), cap))]
         for cs in prod:
             seqs.append([pick(c) for c in cs])
-    # the out-of-range index in the middle of things
-    for a in pool['index!']:
-        for b in (('next',), ('prev',), ('last',), pool['history'][0]):
-            seqs.append([b, a, ('next',)]); seqs.append([a, b])
+    if mode == 'full' or not QUICK:
+        for a in pool['index!']:                          # the out-of-range index in the middle of things
+            for b in [('next',), ('prev',), ('last',)] + pool['history'][:1]:
+                seqs.append([b, a, ('next',)]); seqs.append([a, b])
     allacts = [a for c in sorted(pool) for a in pool[c]]
     weights = [1.0 / len(pool[c]) for c in sorted(pool) for a in pool[c]]
-    for k in range((8 if QUICK else 120) // (2 if reduced else 1) // (4 if n == 1 else 1)):
+    for k in range(nrandom):
         seqs.append(rnd.choices(allacts, weights=weights, k=30))
     return seqs
 
 
 # ---------------------------------------------------------------- one job
 def run_job(job, conn, progfile):
-    rel, path, label, chunk, nchunks, reduced = job
+    rel, path, label, chunk, nchunks, mode, skip = job
     t0 = time.time()
     out = {'rel': label, 'counts': dict((c, 0) for c in CONTRACTS), 'distinct': 0, 'failures': [], 'nfailures': 0,
            'samples': [], 'skipped': 0, 'cases': 0}
@@ -357,7 +403,12 @@ def run_job(job, conn, progfile):
         progress('open')
         want_n = job_n.get(label)
         try:
-            info, snaps = limited(lambda: fresh_snapshots(path), 6 * CALL_LIMIT)
+            info, snaps = limited(lambda: fresh_snapshots(path, skip), 6 * CALL_LIMIT)
+        except FreshError as e:
+            if chunk == 0:
+                fail('fresh-exception', e.args[0], e.args[1], {'file': rel, 'skip_tables': list(skip),
+                     'python': 'l = t2listing(%r%s); l.%s' % ('tests/listing/' + rel, ', skip_tables=%r' % (list(skip),) if skip else '', e.args[0])})
+            conn.send(out); return
         except CallTimeout:
             fail('timeout', 'open', 'opening fresh readers at every index still running after %g s' % (6 * CALL_LIMIT), {'file': label})
             conn.send(out); return
@@ -376,13 +427,14 @@ def run_job(job, conn, progfile):
                 fail('truncated-count', '', 'copy cut before result set %d shows %d result sets' % (want_n + 1, n), {'file': label})
         rnd = random.Random('%d %s' % (seed, label))
         pool = action_pool(info, T, S, rnd)
-        seqs = sequences(pool, n, rnd, reduced, os.path.getsize(path))[chunk::nchunks]
-        nav = Nav(path, label, snaps, info, progress)
+        seqs = sequences(pool, n, rnd, mode, os.path.getsize(path))[chunk::nchunks]
+        nav = Nav(path, label, snaps, info, progress, skip)
         seen = set()
         nshrunk = 0
+        ntimeouts = 0
         for seq in seqs:
-            if time.time() > DEADLINE:
-                out['skipped'] += 1
+            if time.time() > DEADLINE or ntimeouts >= (2 if QUICK else 5):
+                out['skipped'] += 1          # out of time, or this reader has hung often enough
                 continue
             desc = ', '.join(show(a) for a in seq)
             if desc in seen: continue
@@ -390,15 +442,21 @@ def run_job(job, conn, progfile):
             out['cases'] += 1
             r = nav.run(seq)
             if r is None:
-                if len(out['samples']) < 1 and len(seq) == MAXLEN and chunk == 0 and not reduced:
+                if len(out['samples']) < 1 and len(seq) == MAXLEN and chunk == 0 and mode == 'full':
                     out['samples'].append({'file': label, 'result_sets': n, 'sequence': desc})
                 continue
             p, cat, what = r
             seq = seq[:p + 1]
-            if len(seq) > 1 and nshrunk < 15:             # shrink: drop earlier actions while it still fails alike
+            if cat == 'timeout':
+                ntimeouts += 1
+                if len(seq) > 1 and ntimeouts == 1:       # a hang: only try the last action on its own
+                    r2 = nav.run(seq[-1:], count=False)
+                    if r2 is not None and r2[1] == cat:
+                        seq, what = seq[-1:], r2[2]
+            elif len(seq) > 1 and nshrunk < 15:           # shrink: drop earlier actions while it still fails alike
                 nshrunk += 1
                 changed = True
-                while changed and len(seq) > 1:
+                while changed and len(seq) > 1 and time.time() < DEADLINE:
                     changed = False
                     for i in range(len(seq) - 1):
                         cand = seq[:i] + seq[i + 1:]
@@ -407,11 +465,12 @@ def run_job(job, conn, progfile):
                             seq, what, changed = cand, r2[2], True
                             break
             desc = ', '.join(show(a) for a in seq)
-            py = "l = t2listing(%r); " % (('tests/listing/' + rel) if label == rel else '<copy of tests/listing/%s cut before result set %d>' % (rel, n + 1))
+            py = "l = t2listing(%r%s); " % (('tests/listing/' + rel) if path.startswith(LISTDIR) else '<copy of tests/listing/%s cut before result set %d>' % (rel, n + 1),
+                                            ', skip_tables=%r' % (list(skip),) if skip else '')
             for a in seq:
                 py += {'first': 'l.first(); ', 'last': 'l.last(); ', 'next': 'l.next(); ', 'prev': 'l.prev(); '}.get(a[0]) or \
                       ('l.history(%r); ' % (unjs(a[1]),) if a[0] == 'history' else 'l.%s = %r; ' % (a[0], a[1]))
-            fail(cat, desc, what, {'file': rel, 'result_sets_kept': n, 'sequence': [show(a) for a in seq], 'python': py + 'l.index, l.time, l.step'})
+            fail(cat, desc, what, {'file': rel, 'result_sets_kept': n, 'skip_tables': list(skip), 'sequence': [show(a) for a in seq], 'python': py + 'l.index, l.time, l.step'})
         for c in nav.counts: out['counts'][c] += nav.counts[c]
         out['distinct'] = len(seen)
         out['seconds'] = time.time() - t0
@@ -484,18 +543,22 @@ def main():
                 ncut = 0
                 pre.append({'key': 'harness-error %s' % rel, 'what': 'own scan of the file failed: %s' % e, 'input': {'file': rel}})
             n = ncut + 1
-            k = (max(2, size // 120000) if QUICK else max(4, size // 30000)) if n > 1 else max(1, size // 400000)
-            jobs += [(rel, path, rel, c, k, n == 1) for c in range(k)]      # a single result set: outside the quantifier, shorter sequences
-            ks = list(range(1, n)) if not QUICK else sorted(set([1, 2, n - 1]) & set(range(1, n)))
+            k = (max(1, size // 150000) if QUICK else max(4, size // 30000)) if n > 1 else max(1, size // (1000000 if QUICK else 400000))
+            jobs += [(rel, path, rel, c, k, 'single' if n == 1 else 'full', ()) for c in range(k)]      # a single result set: outside the quantifier, shorter sequences
+            ks = list(range(1, n)) if not QUICK else sorted(set([1, n - 1]) & set(range(1, n)))
             if not QUICK and len(ks) > 8:
                 ks = sorted(set(ks[:4] + ks[-2:] + [ks[len(ks) // 2]]))
             for kk, p in sorted(make_truncated(rel, tmp, ks).items()):
                 label = '%s[:%d]' % (rel, kk)
                 job_n[label] = kk
-                k2 = max(1, (size * kk // n) // (200000 if QUICK else 40000))
-                jobs += [(rel, p, label, c, k2, True) for c in range(k2)]
+                k2 = max(1, (size * kk // n) // (300000 if QUICK else 60000))
+                jobs += [(rel, p, label, c, k2, 'trunc', ()) for c in range(k2)]
+            if n > 1:                                         # readers opened with skip_tables (one table left out)
+                for t in file_tables(path):
+                    k3 = max(1, size // (800000 if QUICK else 100000))
+                    jobs += [(rel, path, '%s{skip=%s}' % (rel, t), c, k3, 'skip', (t,)) for c in range(k3)]
         # shipped files with several result sets first; round robin over the files so that each gets its share
-        jobs.sort(key=lambda j: (j[5], j[3], -os.path.getsize(j[1]), j[2]))
+        jobs.sort(key=lambda j: (j[5] == 'single', j[3], {'skip': 0, 'full': 1, 'trunc': 2, 'single': 3}[j[5]], -os.path.getsize(j[1]), j[2]))
         res = run_jobs(jobs, tmp)
     finally:
         shutil.rmtree(tmp, ignore_errors=True)
@@ -507,6 +570,7 @@ def main():
         nfail += r['nfailures']; distinct += r['distinct']; skipped += r['skipped']; ncases += r['cases']
         failures += r['failures']; samples += r['samples']
     failures.sort(key=lambda f: (len(f['key']), f['key']))       # shortest reproductions first
+    failures = [f for i, f in enumerate(failures) if i == 0 or f['key'] != failures[i - 1]['key']]
     per, first, rest = {}, [], []
     for f in failures:
         k = tuple(f['key'].split(' ')[:2])
